@@ -22,7 +22,7 @@ ASSUMPTIONS = [
     "proved for every history outside the class (c11_lossless_modulo_oversize) and refuted inside it "
     "(c11_oversize_event_lost_refuted; witness 'sse S0,m,R65522:61 S0,m,x62 W' in the corpus)",
     "one `W` step allows exactly one read of the EventReceiver (a harness-side wrapper returns Pending afterwards), i.e. the writer "
-    "task is simply not scheduled further; the real server's writer interleaves with senders at the same granularity",
+    "task is simply not scheduled further; the real server's writer interleaves with senders at the same granularity; `W<k>` allows up to k reads in one poll (a burst) and equals k writer polls of the model; a `w<k>` prefix makes the recording writer accept at most k bytes per call (short writes), which write_all must make invisible",
 ]
 EXHAUSTIVE = {"quick": False, "thorough": False}
 MARKED = True   # the stress scenario runs the full server, whose connection task prints to stdout
@@ -93,6 +93,22 @@ def gen(rng, tier):
     cases.append("sse S0,c,x74,R65512:61 W")                  # 9 + 65519 = 65528
     cases.append("sse S0,c,x74,R65513:61 W")                  # 65529
     cases.append("sse S0,m,R21000:c3a9 W")                    # non-ASCII, 42007 bytes
+    # the writer task is scheduled once while several events are queued (W<k> = up to k reads in one poll): events that
+    # together exceed the 65528-byte read buffer, small bursts, bursts ending in the last sender's drop
+    cases.append("sse S0,m,R40000:61 S0,m,R40000:62 W2 S0,m,x63 W")
+    cases.append("sse S0,m,R65000:61 S0,m,R600:62 S0,m,x63 W3")
+    cases.append("sse S0,m,R30000:61 S0,m,R30000:62 S0,m,R30000:63 W5")
+    cases.append("sse S0,%s S0,%s S0,%s W3 S0,%s X0 W4" % (EV_A, EV_B, EV_A, EV_B))
+    cases.append("sse S0,%s S0,%s W9" % (EV_A, EV_B))
+    cases.append("sse C0 S0,%s S1,%s X0 X1 W9" % (EV_A, EV_B))
+    for k in (2, 3, 7, 50):
+        cases.append("sse " + " ".join(["S0,m," + hx("e%d" % i) for i in range(k)]) + " W%d" % k)
+    # short writes: the writer accepts at most k bytes per call (w<k> prefix)
+    for wk in (1, 2, 5, 7, 4096):
+        cases.append("sse w%d S0,%s W S0,%s S0,%s W W" % (wk, EV_A, EV_B, EV_A))
+        cases.append("sse w%d S0,m,R3000:61+x0a+R3000:62 W S0,m,x63 W X0 W" % wk)
+        cases.append("sse w%d S0,%s S0,%s S0,%s W3 X0 W" % (wk, EV_A, EV_B, EV_A))
+    cases.append("sse w60000 S0,m,R65521:61 W S0,m,x62 W")
     # queue boundaries
     for k in (49, 50, 51, 52):
         cases.append("sse " + " ".join(["S0," + EV_A] * k))
@@ -131,9 +147,11 @@ def gen(rng, tier):
             elif r < 0.71 and hs:
                 i = rng.choice(hs); steps.append("X%d" % i); handles.discard(i)
             elif r < 0.97:
-                steps.append("W")
+                steps.append("W" if rng.random() < 0.7 else "W%d" % rng.randint(2, 6))
             else:
                 steps.append("G")
+        if rng.random() < 0.25:
+            steps.insert(0, "w%d" % rng.choice([1, 2, 3, 5, 11, 64]))
         cases.append("sse " + " ".join(steps))
     if tier == "thorough":
         for nt in (1, 2, 3, 4):
